@@ -67,6 +67,15 @@ template<int N> void reg_square() {
 }
 template<int C, int R> void reg_mul_all() { reg_mul<C, R, 2>(); reg_mul<C, R, 3>(); reg_mul<C, R, 4>(); }
 
+// integer matrices (ext/matrix_integer.inl): transpose, outerProduct, matrixCompMult reach the shared kernels through a separate
+// dispatcher selected by numeric_limits<T>::is_iec559 == false; traced at symbolic int32, plus the product as a representative operator
+template<int C, int R> void reg_int() {
+  add_unit_i32(nm("itranspose", {C, R}), C * R, C * R, [](auto const* x, auto* o) { using T = TY(o); stm(o, glm::transpose(ldm<C, R, T>(x))); });
+  add_unit_i32(nm("iouter", {C, R}), R + C, C * R, [](auto const* x, auto* o) { using T = TY(o); stm(o, glm::outerProduct(ldv<R, T>(x), ldv<C, T>(x + R))); });
+  add_unit_i32(nm("icompmult", {C, R}), 2 * C * R, C * R, [](auto const* x, auto* o) { using T = TY(o); stm(o, glm::matrixCompMult(ldm<C, R, T>(x), ldm<C, R, T>(x + C * R))); });
+  add_unit_i32(nm("imulmv", {C, R}), C * R + C, R, [](auto const* x, auto* o) { using T = TY(o); stv(o, ldm<C, R, T>(x) * ldv<C, T>(x + C * R)); });
+}
+
 int main(int argc, char** argv) {
 #define ALLSHAPES(F) F<2,2>(); F<2,3>(); F<2,4>(); F<3,2>(); F<3,3>(); F<3,4>(); F<4,2>(); F<4,3>(); F<4,4>();
 #if IN_PART(0)
@@ -83,6 +92,7 @@ int main(int argc, char** argv) {
   reg_shape<4,2>(); reg_shape<4,3>(); reg_shape<4,4>();
 #endif
 #if IN_PART(4)
+  ALLSHAPES(reg_int)
   ALLSHAPES(reg_conv_all)
 #endif
   return unit_main(argc, argv);
